@@ -240,6 +240,38 @@ fn cycle_steps(template: u64, p: &CycleParams) -> Vec<Step> {
             v.push(Step::HWriteTag { slot: s, len: p.keep_len as usize, tag: 3 });
             v.push(Step::HClose { slot: s });
         }
+        7 => {
+            // small stream flushed, then rewritten from offset 0 past the cutoff through a
+            // new handle (mini -> regular migration inside a write-back), then removed
+            v.push(Step::HOpen { slot: s, path: "/cyc".into(), how: OpenHow::Create });
+            v.push(Step::HWriteTag { slot: s, len: (1 + p.size % 4095) as usize, tag: 7 });
+            v.push(Step::HClose { slot: s });
+            v.push(Step::HOpen { slot: s, path: "/cyc".into(), how: OpenHow::Open });
+            v.push(Step::HWriteTag { slot: s, len: 4096 + (p.delta as usize % 6000), tag: 8 });
+            v.push(Step::HClose { slot: s });
+            v.push(Step::Api(Op::RemoveStream("/cyc".into())));
+        }
+        8 => {
+            // append across the cutoff in two flushes, shrink back below it, remove
+            v.push(Step::HOpen { slot: s, path: "/cyc".into(), how: OpenHow::Create });
+            v.push(Step::HWriteTag { slot: s, len: 4000, tag: 7 });
+            v.push(Step::HFlush { slot: s });
+            v.push(Step::HWriteTag { slot: s, len: 96 + (p.delta as usize % 500), tag: 9 });
+            v.push(Step::HFlush { slot: s });
+            v.push(Step::HSetLen { slot: s, n: p.size % 4096 });
+            v.push(Step::HClose { slot: s });
+            v.push(Step::Api(Op::RemoveStream("/cyc".into())));
+        }
+        9 => {
+            // overwrite a large stream by a small one and back (regular -> mini -> regular)
+            v.push(Step::HOpen { slot: s, path: "/keep2".into(), how: OpenHow::Create });
+            v.push(Step::HWriteTag { slot: s, len: 5000 + p.size as usize % 3000, tag: 5 });
+            v.push(Step::HClose { slot: s });
+            v.push(Step::HOpen { slot: s, path: "/keep2".into(), how: OpenHow::Create });
+            v.push(Step::HWriteTag { slot: s, len: (p.size % 4000) as usize, tag: 6 });
+            v.push(Step::HClose { slot: s });
+            v.push(Step::Api(Op::RemoveStream("/keep2".into())));
+        }
         _ => {
             // empty storage created and removed; metadata set and reset
             v.push(Step::Api(Op::CreateStorage("/tmpst".into())));
@@ -298,7 +330,7 @@ fn c15_case(ctx: &Ctx, rep: &mut Report, rng: &mut Rng, version: Version, done: 
     run_step(&mut sess, Step::HOpen { slot: 6, path: "/keep".into(), how: OpenHow::Create }, done, rep)?;
     run_step(&mut sess, Step::HWriteTag { slot: 6, len: keep_len as usize, tag: 3 }, done, rep)?;
     run_step(&mut sess, Step::HClose { slot: 6 }, done, rep)?;
-    let template = rng.below(7);
+    let template = rng.below(10);
     let params = CycleParams { size: *rng.pick(&[1u64, 60, 64, 100, 500, 1000, 4000, 4095, 4096, 5000, 10000, 70000]), keep_len, delta: *rng.pick(&[1u64, 63, 64, 500, 4000, 4096, 6000]), reverse: rng.chance(1, 2) };
     let reps = rng.range(4, 6);
     let container = if params.size < 4096 { "mini" } else { "regular" };
